@@ -453,6 +453,13 @@ pub fn run(cfg: &Cfg, rep: &mut Report) {
             ctx.parse("operator-typing-const-union", src, false);
         }
     }
+    for (idx, case) in crate::optyping::typed_filter_cases().iter().enumerate() {
+        if cfg.owns(idx as u64) {
+            for c in &case.calls {
+                ctx.parse("typed-type-filter", c, false);
+            }
+        }
+    }
     for (idx, src) in crate::optyping::diverging_branch_programs().iter().enumerate() {
         if cfg.owns(idx as u64) {
             ctx.parse("diverging-branch-narrowing", src, false);
